@@ -40,14 +40,20 @@ type c29Result struct {
 	panic any
 }
 
-func runEntryPoint(base *host.Host, script bool, src string, arg []byte, eng host.Engine) (res c29Result) {
+func runEntryPoint(base *host.Host, script bool, src string, arg []byte, eng host.Engine) c29Result {
+	return runEntryPointOpt(base, script, src, arg, eng, true)
+}
+
+// runEntryPointOpt: atreeValidation switches the runtime's debug re-validation of
+// every atree container (AtreeValidationEnabled; production hosts run without it).
+func runEntryPointOpt(base *host.Host, script bool, src string, arg []byte, eng host.Engine, atreeValidation bool) (res c29Result) {
 	h := base.Fork()
 	var signers []common.Address
 	if !script {
 		signers = []common.Address{host.Addr(1)}
 	}
 	h.BeginExecution(signers)
-	rt := runtime.NewRuntime(runtime.Config{AtreeValidationEnabled: true})
+	rt := runtime.NewRuntime(runtime.Config{AtreeValidationEnabled: atreeValidation})
 	ctx := runtime.Context{Interface: argHost{h}, UseVM: eng != host.Interp}
 	if script {
 		ctx.Location = common.ScriptLocation{0x53}
